@@ -38,6 +38,9 @@ CHECKS = {
  "C18": dict(cat="exploration", technique="deterministic simulation at the system-call seam around the real kernel ring: seeded operation batches with direct-call twins, setup/teardown mapping and descriptor ledger with setup-fault injection (ring stub for the single-mmap layout)",
    text="Even cases drive one real io_uring (1-64 entries) with seeded batches of mutually independent entries (mkdirat, openat, writev, readv, statx, renameat, unlinkat, close, timeout, socket, incl. failing ones); completions are matched by user_data, each result is compared with the equivalent direct system call executed in a twin directory and the directories are compared; exactly one completion per submission. Odd cases run setup+drop under a mapping/descriptor ledger at the seam, on the real kernel and on the ring stub (single-mmap and two-mapping layouts), with io_uring_setup or any of the mmaps failing by decision: every ring mapping unmapped exactly once, nothing else unmapped, descriptor closed once, nothing left after a failed setup. Sampling, not proof.",
    note="Weaker control than the other checks: the kernel's completion order and worker threads are not decided by the simulator (normalised by user_data, independent entries only); fixed buffers, connect/accept, send/recvmsg, poll and linked chains are not generated.", ref="DESIGN.md §3 C18"),
+ "C16": dict(cat="exploration", technique="deterministic simulation: server and client as simulated threads on real kernel sockets with simulator-managed ppoll blocking and simulated clock, short-transfer/EINTR injection, position-dependent byte-stream oracle",
+   text="Server and client run as simulated threads (coroutines, seeded scheduler) on real unix and loopback-TCP sockets; the only blocking call of tiny-std's socket code, ppoll, is served by the simulator (zero-timeout real poll, park, re-poll when the peer acts, timeouts on the simulated clock, EINTR after part of the wait). Generated payloads (0..500 KB, thorough 4 MB) with small socket buffers so that buffers fill, generated write chunk / read buffer sequences, either side writing or closing first; timeouts 1 us..10 s with a peer acting before/after/never; try_* calls must not enter ppoll; SCM_RIGHTS with 0-16 descriptors and control buffers smaller/equal/larger than needed, flush against a PROT_NONE page in a forked receiver. Oracles: first wrong byte, totals, deadlock detector, Timeout only after the simulated limit, exact descriptor identity. Sampling, not proof.",
+   note="Kernel sockets are real: unix-socket runs replay exactly; loopback TCP is delivered asynchronously (softirq, Nagle/delayed-ACK timers), so TCP runs are identified by scenario and outcome only and a state with parked pollers is called a deadlock only after 400 ms of real patience; TCP receive buffers are kept >=128 KB (zero-window probing runs on real kernel timers).", ref="DESIGN.md §3 C16"),
 }
 NA = {
  "C07": "pure function of the initial process image (argv/env/aux on the start-up stack): no schedule, clock, fault or second party to simulate",
